@@ -132,8 +132,11 @@ def ambiguous_self_matching(x, cfg, func=""):
 KINDS = {"Precision": "P01", "Recall": "P01", "F-measure": "P01", "Average_Overlap_Ratio": "LE1"}
 VEL_CHAIN = ("velocity_tolerance", [0.01, 0.05, 0.1, 0.3, 0.6, 0.9, 1.5])    # no value is an exact tie (1/2, 1/4)
 
+_F_VEL = "transcription_velocity.precision_recall_f1_overlap"
+_F_NOVEL = "transcription.precision_recall_f1_overlap[ignoring_velocity]"
+
 FUNCS = [
-    ChoiceFunc("transcription_velocity.precision_recall_f1_overlap", M.precision_recall_f1_overlap, PRFO,
+    ChoiceFunc(_F_VEL, M.precision_recall_f1_overlap, PRFO,
                [("onset_tolerance", [0.05, 0.04]), ("pitch_tolerance", [50.0, 1.0]),
                 ("offset_ratio", [0.2, None]), ("offset_min_tolerance", [0.05, 0.01]), ("strict", [False, True]),
                 ("velocity_tolerance", [0.1, 0.05, 0.3, 0.6]), ("beta", [1.0, 2.0])],
@@ -142,18 +145,23 @@ FUNCS = [
                # on it, so the kept set can only grow.  Widening a *note* tolerance changes the matching and the
                # fitted line; the kept count is not monotone by definition (see TASK.mono_not_claimed).
                mono=[VEL_CHAIN], mono_keys=list(PRF)),
+    # the same notes scored by mir_eval.transcription (velocities dropped): upper side of the C07 nested
+    # relation "with velocity <= without"; optimum=None (C02 for this function belongs to the transcription task)
+    ChoiceFunc(_F_NOVEL, MT.precision_recall_f1_overlap, PRFO,
+               [("offset_ratio", [0.2, None]), ("strict", [False, True])],
+               build_no_velocity, model, S.precision_recall_f1_overlap, KINDS),
 ]
 
 TASK = Task("transcription_velocity", FUNCS, pair_space, single_space)
 TASK.mono_not_claimed = [TT.ONSET_CHAIN, TT.PITCH_CHAIN, TT.RATIO_CHAIN, TT.MIN_CHAIN, TT.STRICT_CHAIN]
 TASK.ambiguous_self_matching = ambiguous_self_matching
 
-# C07 nested "with velocity <= without": the same notes scored by mir_eval.transcription (velocities dropped)
-NO_VELOCITY = Func("transcription.precision_recall_f1_overlap", MT.precision_recall_f1_overlap, PRFO,
-                   FUNCS[0].params, build_no_velocity, model, None, KINDS)
-TASK.cross_nested = [("transcription_velocity.precision_recall_f1_overlap", k, NO_VELOCITY, k,
-                      ("onset_tolerance", "pitch_tolerance", "offset_ratio", "offset_min_tolerance", "strict",
-                       "beta")) for k in PRF]
+# C07 nested "with velocity <= without" (Precision, Recall, F-measure: same denominators, fewer hits)
+TASK.cross_nested = []
+for _cfg in ({}, {"offset_ratio": None}, {"strict": True}, {"velocity_tolerance": 0.6}, {"velocity_tolerance": 0.05}):
+    _hi = {k: v for k, v in _cfg.items() if k in ("offset_ratio", "strict")}
+    for _k in PRF:
+        TASK.cross_nested.append(((_F_VEL, _k, dict(_cfg)), (_F_NOVEL, _k, dict(_hi))))
 
 
 # ---------------------------------------------------------------------------------- fixtures
